@@ -186,7 +186,7 @@ class EncodeDecode(Family):
             return 'unencodable', False
         judge(hrp, want, what='round trip')
         judge(hrp, want.upper(), what='upper case')
-        if hrp in HRP_CHAIN and ver == 0:
+        if hrp in HRP_CHAIN and ver <= 16:
             bitcoin.SelectParams(HRP_CHAIN[hrp])
             s = str(B.CBech32Data.from_bytes(ver, prog))
             if s != want:
@@ -253,6 +253,69 @@ class PrefixConfusion(Family):
         if R.decode(want_hrp, s) is not None:
             raise HarnessError('reference accepts a foreign prefix')
         return judge(want_hrp, s, what='prefix confusion (%r under %r)' % (real, want_hrp)), True
+
+
+class ForeignConstants(Family):
+    """strings whose checksum is valid for another final constant (the BIP350 / bech32m constant 0x2bc830a3, 0, 2, 3,
+    0x3fffffff) instead of BIP173's 1: never reachable by <= 4 substitutions, all must be rejected"""
+    name = 'foreign_checksum_constants'
+    nontrivial_rule = 'every case'
+    CONSTS = [0x2bc830a3, 0, 2, 3, 0x3fffffff, 0x2bc830a2]
+
+    def cases(self, shard, tier):
+        for hrp in ('bc', 'tb', 'bcrt'):
+            for ver in (0, 1, 2, 16):
+                for l in (2, 20, 32, 40):
+                    for ci in range(len(self.CONSTS)):
+                        yield (hrp, ver, l, ci)
+
+    def check(self, case):
+        hrp, ver, l, ci = case
+        data = [ver] + R.to5(C.fill(l, ver + l))
+        rem = R.poly_rem(R.hrp_expand(hrp) + data + [0] * 6)
+        const = self.CONSTS[ci]
+        cs = [rem[i] ^ ((const >> 5 * (5 - i)) & 31) for i in range(6)]
+        s = hrp + '1' + ''.join(CH[d] for d in data + cs)
+        if R.decode(hrp, s) is not None:
+            raise HarnessError('reference accepts a foreign checksum constant')
+        return judge(hrp, s, what='checksum for constant %#x' % const), True
+
+
+CASELESS = [('42', 5, '294a53969e')]
+
+
+class Caseless(Family):
+    """addresses that contain no letter at all (digit-only prefix, data part and checksum made of digits): 'a single
+    letter case' holds vacuously, BIP173 accepts them"""
+    name = 'caseless_addresses'
+    nontrivial_rule = 'every case'
+
+    def cases(self, shard, tier):
+        for i in range(len(CASELESS)):
+            yield ('literal', i)
+        # digit-only prefixes with every 2-byte program of version 1..2: most contain letters, all must agree with the reference
+        for hrp in ('42', '7'):
+            for ver in (1, 2):
+                for a in range(0, 256, 5):
+                    for b in range(0, 256, 3):
+                        yield ('scan', hrp, ver, a, b)
+
+    def check(self, case):
+        bitcoin, SA, B = _lib()
+        if case[0] == 'literal':
+            hrp, ver, prog = CASELESS[case[1]]
+            prog = bytes.fromhex(prog)
+        else:
+            _, hrp, ver, a, b = case
+            prog = bytes([a, b])
+        s = R.encode(hrp, ver, prog)
+        if R.decode(hrp, s) != (ver, prog):
+            raise HarnessError('reference round trip')
+        got = SA.encode(hrp, ver, prog)
+        if got != s:
+            raise Viol('segwit_addr.encode(%r, %d, %s)' % (hrp, ver, prog.hex()), s, got)
+        judge(hrp, s, what='address %r' % s)
+        return ('caseless' if s.lower() == s.upper() else 'cased'), True
 
 
 class SingleFaults(Family):
@@ -421,4 +484,4 @@ class Bursts(Family):
 
 
 def families(tier):
-    return [EncodeDecode(), RuleViolations(), PrefixConfusion(), SingleFaults(), DoubleSubs(), MultiSubs(), Bursts()]
+    return [EncodeDecode(), RuleViolations(), PrefixConfusion(), ForeignConstants(), Caseless(), SingleFaults(), DoubleSubs(), MultiSubs(), Bursts()]
